@@ -156,7 +156,10 @@ func (m *Thread) Run() {
 			core.LogInfo(m, "Control command name ", interest.Name().String(), " has unexpected number of components - DROP")
 			continue
 		}
-		if !m.localPrefix.IsPrefix(interest.NameV) && !m.nonLocalPrefix.IsPrefix(interest.Name()) {
+		// The link-local prefix is served only when link-local management is enabled: a route that happens to
+		// lead /localhop/nfd to this face must not open management to non-local faces.
+		if !m.localPrefix.IsPrefix(interest.NameV) &&
+			!(enableLocalhopManagement && m.nonLocalPrefix.IsPrefix(interest.Name())) {
 			core.LogInfo(m, "Control command name ", interest.Name(), " has unexpected prefix - DROP")
 			continue
 		}
